@@ -223,29 +223,43 @@ def case_config_helpers(**p):
 
 def _dtype_sweep():
   """the same data and weights in every array dtype a caller may hand over (values are what the symbolic cases cover;
-  the dtype is a finite enumeration, executed on the real function)"""
+  the dtype is a finite enumeration, executed on the real function); end points are compared exactly"""
   from tensorflow_lattice.python import premade_lib, pwl_calibration_lib
-  vals = np.array([0.0, 0.0, 1.0, 1.0, 2.0, 3.0, 3.0, 5.0, 8.0, 8.0])
+  datasets = [
+      (np.array([0.0, 0.0, 1.0, 1.0, 2.0, 3.0, 3.0, 5.0, 8.0, 8.0]), (np.float64, np.float32, np.int64, np.int32, np.int16, np.int8), ((None, None), (1.0, 6.0))),
+      # a span that does not fit the small integer types when subtracted; clip bounds that are not dyadic
+      (np.array([-100.0, -100.0, -50.0, 0.0, 25.0, 50.0, 100.0, 100.0, 75.0, -25.0]), (np.float64, np.float32, np.int64, np.int16, np.int8), ((None, None), (0.2, 0.9), (-70.3, 33.1))),
+      (np.array([-20000.0, 20000.0, 0.0, 5.0, 7.0, -3.0, 11.0, 13.0, 17.0, 19.0]), (np.float32, np.int32, np.int16), ((None, None),)),
+  ]
   wts = np.array([1, 2, 1, 1, 3, 1, 1, 2, 1, 1])
   fails = []
   n = 0
-  for vdt in (np.float64, np.float32, np.int64, np.int32):
-    for wdt in (None, np.float64, np.float32, np.int64, np.int32, np.bool_):
-      for mode in ('quantiles', 'uniform'):
-        for red in ('mean', 'sum'):
-          for clip in ((None, None), (1.0, 6.0)):
-            w = None if wdt is None else (wts > 1).astype(wdt) + (0 if wdt is np.bool_ else wts.astype(wdt))
-            n += 1
-            try:
-              ks = premade_lib.compute_keypoints(vals.astype(vdt), num_keypoints=4, keypoints=mode, clip_min=clip[0], clip_max=clip[1],
-                                                 weights=w, weight_reduction=red)
-              ks = [float(k) for k in ks]
-              if any(b_ <= a for a, b_ in zip(ks[:-1], ks[1:])) or not np.all(np.isfinite(ks)):
-                fails.append((vdt.__name__, getattr(wdt, '__name__', None), mode, red, clip, ks))
-              else:
-                pwl_calibration_lib.verify_hyperparameters(input_keypoints=ks)
-            except Exception as e:  # pylint: disable=broad-except
-              fails.append((vdt.__name__, getattr(wdt, '__name__', None), mode, red, clip, '%s: %s' % (type(e).__name__, str(e)[:80])))
+  for vals, vdts, clips in datasets:
+    for vdt in vdts:
+      for wdt in (None, np.float64, np.float32, np.int64, np.int32, np.bool_):
+        for mode in ('quantiles', 'uniform'):
+          for red in ('mean', 'sum'):
+            for clip in clips:
+              w = None if wdt is None else (np.ones(len(wts), dtype=np.bool_) if wdt is np.bool_ else wts.astype(wdt))  # all weights positive
+              n += 1
+              tag = (vdt.__name__, getattr(wdt, '__name__', None), mode, red, clip, float(vals.min()), float(vals.max()))
+              try:
+                data = vals.astype(vdt)
+                ks = premade_lib.compute_keypoints(data, num_keypoints=4, keypoints=mode, clip_min=clip[0], clip_max=clip[1],
+                                                   weights=w, weight_reduction=red)
+                ks = [float(k) for k in ks]
+                lo = float(data.min()) if clip[0] is None else max(float(clip[0]), float(data.min()))
+                hi = float(data.max()) if clip[1] is None else min(float(clip[1]), float(data.max()))
+                # float32 data: clip bounds may be rounded to the data's dtype; that rounding is not part of the claim
+                tol = 1e-6 if vdt is np.float32 else 0.0
+                if any(b_ <= a for a, b_ in zip(ks[:-1], ks[1:])) or not np.all(np.isfinite(ks)):
+                  fails.append(tag + (ks,))
+                elif abs(ks[0] - lo) > tol * max(1.0, abs(lo)) or abs(ks[-1] - hi) > tol * max(1.0, abs(hi)):
+                  fails.append(tag + ('end points %r, %r instead of %r, %r' % (ks[0], ks[-1], lo, hi),))
+                else:
+                  pwl_calibration_lib.verify_hyperparameters(input_keypoints=ks)
+              except Exception as e:  # pylint: disable=broad-except
+                fails.append(tag + ('%s: %s' % (type(e).__name__, str(e)[:80]),))
   return n, fails
 
 
